@@ -355,6 +355,7 @@ class C05(Monitor):
 
     def start(self, ctx):
         self.fare = collections.defaultdict(float)
+        self.fare_state = collections.defaultdict(float)
         self.paid = collections.defaultdict(float)
         self.recv = collections.defaultdict(float)
         # the tariff table of the input, read independently of the code (generated scenarios only)
@@ -418,6 +419,14 @@ class C05(Monitor):
             if t == "PICKUP_REQUEST_EVENT":
                 self.fare[d["vehicle_id"]] += float(d["price"])
                 ctx.count("c05_pickups")
+        # fares seen in the state: a vehicle that starts carrying a request collected that request's value (whether or not a
+        # pickup record was filed)
+        for v in s.vehicles.values():
+            p = prev.vehicles.get(v.id)
+            if aname(v) == "ServicingTrip" and (p is None or getattr(p.vehicle_state, "instance_id", None) != v.vehicle_state.instance_id):
+                r = v.vehicle_state.request
+                self.fare_state[v.id] += float(prev.requests[r.id].value) if r.id in prev.requests else float(r.value)
+                ctx.count("c05_boardings_seen_in_the_state")
         for vid, x in step_paid.items():
             self.paid[vid] += x
         for sid, x in step_recv.items():
@@ -427,6 +436,9 @@ class C05(Monitor):
             exp = self.fare[v.id] - self.paid[v.id]
             if abs(v.balance - exp) > 1e-6 * max(1.0, abs(exp)):
                 ctx.violate("C05", "vehicle-balance", f"vehicle {v.id} balance {v.balance} != fares {self.fare[v.id]} - payments {self.paid[v.id]}", vehicle=v.id)
+            exp2 = self.fare_state[v.id] - self.paid[v.id]
+            if abs(v.balance - exp2) > 1e-6 * max(1.0, abs(exp2)):
+                ctx.violate("C05", "vehicle-balance-vs-requests-taken-on-board", f"vehicle {v.id} balance {v.balance} != value of the requests it took on board {self.fare_state[v.id]} - payments {self.paid[v.id]}", vehicle=v.id)
         for st in s.stations.values():
             exp = self.recv[st.id]
             if abs(st.balance - exp) > 1e-6 * max(1.0, abs(exp)):
